@@ -154,6 +154,30 @@ func genStore(repo, out string) {
 	l.line("/-- Create/Update/Destroy run entirely under `mu.Lock(); defer mu.Unlock()` -/")
 	l.line("def lockDiscipline : Bool := %s", leanBool(lockDiscipline))
 
+	// state/errors.go IsConflictError: after errors.As, BOTH qualifiers are compared with the error's resource
+	conflictQ := false
+
+	if fd := method(parse(filepath.Join(repo, "pkg/state/errors.go")), "", "IsConflictError"); fd != nil && fd.Body != nil {
+		var body []string
+		for _, st := range fd.Body.List {
+			body = append(body, src(st))
+		}
+
+		conflictQ = strings.Join(body, " ;; ") == strings.Join([]string{
+			"var i ErrConflict",
+			"var options ErrcheckOptions",
+			"for _, o := range opts { o(&options) }",
+			"if !errors.As(err, &i) { return false }",
+			"res := i.GetResource()",
+			"if options.resourceNamespace != \"\" && res.Namespace() != options.resourceNamespace { return false }",
+			"if options.resourceType != \"\" && res.Type() != options.resourceType { return false }",
+			"return true",
+		}, " ;; ")
+	}
+
+	l.line("/-- `state.IsConflictError`: a conflict error, and each qualifier given (namespace, type) equals the error's resource -/")
+	l.line("def conflictChecksBothQualifiers : Bool := %s", leanBool(conflictQ))
+
 	// errors.go: which constructors set `resource:` in their eConflict literal
 	l.line("def errHasResource : String → Bool")
 
